@@ -691,12 +691,22 @@ func summarise(c *core.Ctx, s *c20side, recv ssa.Value, p *paths.Path) *pathFact
 		}
 		// string(<nil slice>) and the like: the operand of a conversion is looked at through the path's bindings
 		rv := r
-		for i := 0; i < 3; i++ {
-			cv, isCv := rv.(*ssa.Convert)
-			if !isCv || len(p.Events) == 0 {
-				break
+		for i := 0; i < 4 && len(p.Events) > 0; i++ {
+			last := p.Events[len(p.Events)-1]
+			if cv, isCv := rv.(*ssa.Convert); isCv {
+				rv = last.Resolve(cv.X)
+				continue
 			}
-			rv = p.Events[len(p.Events)-1].Resolve(cv.X)
+			// before, _, _ := strings.Cut(x, sep): zero when x is
+			if ex, isE := rv.(*ssa.Extract); isE && ex.Index == 0 {
+				if call, isC := ex.Tuple.(*ssa.Call); isC {
+					if cal := call.Call.StaticCallee(); cal != nil && cal.Pkg != nil && (cal.Pkg.Pkg.Path() == "strings" || cal.Pkg.Pkg.Path() == "bytes") && cal.Name() == "Cut" && len(call.Call.Args) == 2 {
+						rv = last.Resolve(call.Call.Args[0])
+						continue
+					}
+				}
+			}
+			break
 		}
 		if !isZeroValue(rv, touched) {
 			f.zeroOK = false
@@ -779,6 +789,13 @@ func isZeroValue(v ssa.Value, touched map[ssa.Value]bool) bool {
 			pp := cal.Pkg.Pkg.Path()
 			if (pp == "strings" || pp == "bytes") && (strings.HasPrefix(cal.Name(), "Trim") || strings.HasPrefix(cal.Name(), "To") || cal.Name() == "Clone") {
 				return isZeroValue(x.Call.Args[0], touched)
+			}
+		}
+	case *ssa.Extract:
+		// before, _, _ := strings.Cut("", sep): the empty string again
+		if call, ok := x.Tuple.(*ssa.Call); ok && x.Index == 0 {
+			if cal := call.Call.StaticCallee(); cal != nil && cal.Pkg != nil && (cal.Pkg.Pkg.Path() == "strings" || cal.Pkg.Pkg.Path() == "bytes") && cal.Name() == "Cut" && len(call.Call.Args) == 2 {
+				return isZeroValue(call.Call.Args[0], touched)
 			}
 		}
 	case *ssa.Slice:
